@@ -37,7 +37,9 @@ class Livelock(Deadlock):
     succeed).  info has the shape of a Deadlock's: [(thread, state, wait_on, pending operation)]; spinning threads are 'spinning'."""
 
 
-MAX_STEPS = 30000   # the longest executions of the checks have a few thousand scheduling points
+# default bound; conc.run_program raises it in proportion to the bytes its program may read (with read boundaries every read is two
+# scheduling points, and a file of two-byte lines is read line by line: 70 000 steps for 70 kB - a false alarm of the first version)
+MAX_STEPS = 30000
 
 
 class HarnessTimeout(Exception):
@@ -198,7 +200,7 @@ class Sched:
                     self.trace.append(("preempt", self.total_steps, last.idx, t.idx, last.pending, len(self.log)))
                 last = t
                 self.total_steps += 1
-                if self.total_steps > MAX_STEPS:
+                if self.total_steps > getattr(self, "max_steps", MAX_STEPS):
                     raise Livelock([(x.idx, "spinning" if x.state == "ready" else x.state, x.wait_on, x.pending) for x in self.ts])
                 t.sem.release()
                 if not self.sem.acquire(timeout=WATCHDOG_S):
